@@ -94,6 +94,7 @@ def run(ck):
         subdivmodel.run(ck, True)
     # the model invariants are checked in the same TLC run that exports the cases
     d = 'SPECIFICATION Spec\nCONSTANTS Q = %d\n Fams = {"%s"}\nINVARIANT MeetExactly\nINVARIANT Monotone\nINVARIANT TransversalOK\nINVARIANT Separated\nINVARIANT Dump\n'
+    nsmall = [0]
     for q, fam, n in ((3, 'cross', 150 if quick else 1200), (2, 'cross', 60 if quick else 400), (3, 'apart', 150 if quick else 1500)):
         r = ck.tlc('Crossings', d % (q, fam), workers=1, coverage=False, timeout=1200)
         cases = r.cases
@@ -112,6 +113,13 @@ def run(ck):
                 fa, fb = a.scaled(1e-3).translated(4000 + 3000j), b.scaled(1e-3).translated(4000 + 3000j)
                 ck.case(fp=('pair-far', q, fam, str(pr)), nontrivial=fam == 'cross')
                 pair_case(ck, '%s Q=%d scaled 1e-3 at 4000+3000j' % (fam, q), fa, fb, [(t1, t2, fa.point(t1))] if fam == 'cross' else [], 1e-5, {'pr': pr, 'q': q, 'far': True})
+            if pr['n1'] > 1 and pr['n2'] > 1 and nsmall[0] < (10 if quick else 60):
+                # two Beziers drawn at a thousandth / a hundred-thousandth of the size: whatever is reported must be a meeting point to 1e-5 of *that* size
+                nsmall[0] += 1
+                for sc_ in (1e-3, 1e-5):
+                    sa, sb = a.scaled(sc_), b.scaled(sc_)
+                    ck.case(fp=('pair-small', sc_, q, fam, str(pr)), nontrivial=fam == 'cross')
+                    pair_case(ck, '%s Q=%d scaled %g' % (fam, q, sc_), sa, sb, [(t1, t2, sa.point(t1))] if fam == 'cross' else [], 1e-5, {'pr': pr, 'q': q, 'scale': sc_})
             if fam == 'cross' and q == 3 and not isinstance(a, sp.Line):
                 # touching / near-miss configurations: nothing is known about the count, whatever is returned must be sound
                 for name, x, ln in cm.touching_from(a, b, t1, t2):
